@@ -138,7 +138,7 @@ def run(ctx):
     for i, p in enumerate(progs):
         probe_dl = i in outs and any(o["end"] == "deadlock" and o["probe"] for o in outs[i])
         has_probe = any(o["op"] == "probe" for a in p["ranks"] for o in a)
-        to = 4 if probe_dl else (8 if has_probe and i not in outs else 30)
+        to = 6 if probe_dl else (10 if has_probe and i not in outs else 40)     # an unsatisfied MPI_Probe polls for ever
         ls = [layouts[(i + ctx.seed) % 3]] if quick else [layouts[(i + ctx.seed) % 3], layouts[(i + ctx.seed + 1) % 3]]
         for lay in ls:
             jobs.append((len(jobs), p, lay, to, i))
@@ -156,7 +156,8 @@ def run(ctx):
     # a rejection counts only if a second run of the same program (same layout) is rejected too
     confirmed = []
     if rej:
-        rejobs = [(k, progs[x["prog"]], jobs[x["run"]][2], jobs[x["run"]][3], x["prog"]) for k, x in enumerate(rej)]
+        # (with a longer time-out: on a loaded machine a slow run must not be taken for a hang twice)
+        rejobs = [(k, progs[x["prog"]], jobs[x["run"]][2], 5 * jobs[x["run"]][3], x["prog"]) for k, x in enumerate(rej)]
         re_tr = M.run_many(ctx, rejobs, tag="re")
         rej2 = M.validate_traces(ctx, progs, [(j[4], t) for j, t in zip(rejobs, re_tr)], tag="tvre")
         again = {y["run"]: y for y in rej2}
@@ -217,7 +218,7 @@ def run(ctx):
         io = M.impl_outcome(progs[i], t)
         n_out += 1
         if not M.outcome_allowed(io, outs[i]):
-            t2 = M.run_smpi(ctx, 0, progs[i], j[2], j[3], tag="oc%d_" % i)
+            t2 = M.run_smpi(ctx, 0, progs[i], j[2], 5 * j[3], tag="oc%d_" % i)
             if M.outcome_allowed(M.impl_outcome(progs[i], t2), outs[i]):
                 continue
             ctx.violation("outcome of the real run is not among the outcomes MpiP2P allows: end=%s" % io["end"],
